@@ -75,6 +75,12 @@ def faulty_inner(model, payload):
                 raise OSError(28, "No space left on device")
             return super().store_blob(key, blob, codec)
 
+        def fetch_blob(self, key):
+            if Flaky.fail == "fetch_blob":
+                Flaky.fail = None
+                raise ImportError("the class of the pickled object is not importable yet")
+            return super().fetch_blob(key)
+
         def sync_paths(self, paths):
             if Flaky.fail == "sync_paths":
                 Flaky.fail = None
@@ -108,4 +114,18 @@ def faulty_inner(model, payload):
                 b = type(e).__name__
             if w != b:
                 return {"reproduced": True, "detail": "capacity %d: after a failed %s fetch_paths differs: wrapped %r, bare %r" % (cap, what, w, b), "inputs": {"capacity": cap, "fault": what}}
-    return {"reproduced": False, "detail": "the wrapper stays coherent with the store after a failed write, capacities 1, 2, 10"}
+    # a read of a present blob that fails once (class not importable yet, transient I/O error): nothing wrong is remembered
+    for cap in (1, 2, 10):
+        inner = Flaky()
+        st = LRUCacheStore(inner, cap)
+        inner.store_blob("kf", {"model": 1}, None)
+        Flaky.fail = "fetch_blob"
+        try:
+            st.fetch_blob("kf")
+            return {"reproduced": True, "detail": "capacity %d: the failure of the wrapped store's fetch_blob was swallowed" % cap, "inputs": {"capacity": cap, "fault": "fetch_blob"}}
+        except ImportError:
+            pass
+        got = st.fetch_blob("kf")
+        if got != {"model": 1} or not st.has_blob("kf"):
+            return {"reproduced": True, "detail": "capacity %d: after a failed read of a present blob the cache-wrapped store returns %r for it (the bare store returns the object)" % (cap, got), "inputs": {"capacity": cap, "fault": "fetch_blob"}}
+    return {"reproduced": False, "detail": "the wrapper stays coherent with the store after a failed write or read, capacities 1, 2, 10"}
